@@ -134,16 +134,17 @@ func c01AtomCases(emit func(c01Case)) {
 	}
 }
 
-func c01RunAtoms(c *Ctx, cs c01Case) {
-	var k atomKind
+func c01AtomKindByName(name string) atomKind {
 	for _, x := range c01AtomKinds() {
-		if x.name == cs.Graph {
-			k = x
+		if x.name == name {
+			return x
 		}
 	}
-	if k.name == "" {
-		panic("harness: unknown atom kind " + cs.Graph)
-	}
+	panic("harness: unknown atom kind " + name)
+}
+
+// c01AtomProfile builds the catalogue profile (validations plain / neg / asif) and its graph for one kind.
+func c01AtomProfile(k atomKind) (string, *Graph) {
 	g := &Graph{}
 	for i, d := range k.dom {
 		n := g.Add(nid(i), EX+"T")
@@ -155,12 +156,19 @@ func c01RunAtoms(c *Ctx, cs c01Case) {
 		}
 	}
 	g.Add(EX+"decoy", EX+"U").P(EX+"v", "zzzzzzz", 99)
-	top := M("profile", "c01 atoms", "prefixes", M("ex", EX), "violation", strs("plain", "neg"),
+	top := M("profile", "c01 atoms", "prefixes", M("ex", EX), "violation", strs("plain", "neg", "asif"),
 		"validations", M(
 			"plain", M("message", "m", "targetClass", "ex.T", "propertyConstraints", M("ex.v", k.cons)),
 			"neg", M("message", "m", "targetClass", "ex.T", "not", M("propertyConstraints", M("ex.v", k.cons))),
+			// the constraint as the `if` of a conditional whose `then` never holds: reported iff the constraint holds
+			"asif", M("message", "m", "targetClass", "ex.T", "if", M("propertyConstraints", M("ex.v", k.cons)), "then", M("propertyConstraints", M("ex.never", M("minCount", 1)))),
 		))
-	prof := EmitYAML(top)
+	return EmitYAML(top), g
+}
+
+func c01RunAtoms(c *Ctx, cs c01Case) {
+	k := c01AtomKindByName(cs.Graph)
+	prof, g := c01AtomProfile(k)
 	res := Validate(prof, g.FlatJSONLD())
 	c.Eval(1)
 	if res.Panic != nil || res.Err != nil {
@@ -172,7 +180,10 @@ func c01RunAtoms(c *Ctx, cs c01Case) {
 		c.Violate("C01 atom report malformed", err.Error(), nil)
 		return
 	}
-	plain, neg := rep.FocusSet("plain"), rep.FocusSet("neg")
+	plain, neg, asif := rep.FocusSet("plain"), rep.FocusSet("neg"), rep.FocusSet("asif")
+	if !setEq(neg, asif) {
+		c.Violate("C01 atom under `not` and the same atom as the `if` of a failing conditional disagree: "+k.name, fmt.Sprintf("not: %s\nif:  %s\nprofile:\n%s", setStr(neg), setStr(asif), prof), nil)
+	}
 	both := 0
 	for i, d := range k.dom {
 		id := nid(i)
